@@ -1,6 +1,6 @@
 """C08 - auto-profiling rewrites only add hooks; the program behaves the same.
 
-Theorem side: Props/C08.v over Ast/{AstLite,Transform,TransformFacts,Behaviour,PropFacts}.v
+Theorem side: Props/C08.v over Ast/{AstLite,Transform,TransformFacts,Placement,Behaviour,PropFacts}.v
 (shared with C09), Gen/Select.v and Gen/RelImport.v regenerated on every run.
 
 Tie: (a) tree level - random program texts and the generated executable programs are put on
@@ -23,8 +23,8 @@ from harness.props import c08_gen as G8
 PROP = 'C08'
 MODULE = 'Props.C08'
 THEOREMS = ['C08_erasure', 'C08_reference_program', 'C08_lines_preserved', 'C08_decorator_innermost_once',
-            'C08_rewrite_defined', 'C08_inserted_nodes_located_refuted', 'C08_inserted_located_witnesses',
-            'C08_future_placement_refuted', 'C08_star_registration_refuted', 'C08_behaviour', 'C08_nonvacuous']
+            'C08_inserted_nodes_located', 'C08_future_placement', 'C08_star_registration', 'C08_repaired_examples',
+            'C08_behaviour', 'C08_nonvacuous']
 LEVEL = 'proof'
 GEN_TARGETS = ['RelImport.v', 'Select.v']
 HEADER = P9.HEADER
@@ -200,11 +200,11 @@ def py_behaviour_spec(case, r):
 # ---------------------------------------------------------------------------------------
 def c08_row(case, t):
     out = t.get('out') if t.get('err') is None else None
-    return '(c08_case %s %s %s %s\n %s\n %s %s)' % (
+    return '(c08_case %s %s %s %s\n %s\n %s)' % (
         core.coq_bool(bool(t.get('full'))), core.coq_bool(case['imports']),
         core.coq_opt(core.coq_str(t['modname']) if t.get('modname') else None),
         P9.coq_strs(t.get('S') or []), AC.coq_body(t['orig']),
-        core.coq_opt(AC.coq_body(out) if out is not None else None), core.coq_z(P9.err_code(t.get('err'))))
+        core.coq_opt(AC.coq_body(out) if out is not None else None))
 
 
 def behaviour_as_tree_cases(bcase):
